@@ -39,8 +39,10 @@ C02(c) ==
   LET env  == SemList(c.exprs, c.inputs, U)
       unm  == FirstBad(c.rets, LAMBDA r : ~QHas(c.qmap, r))
       undef == FirstBad(c.rets, LAMBDA r : r \notin DOMAIN env)
+      oor == FirstBad(c.rets, LAMBDA r : QHas(c.qmap, r) /\ (QGet(c.qmap, r) < 0 \/ QGet(c.qmap, r) >= c.nq))
   IN
   IF unm # "" THEN <<"fail", "return-bit-not-mapped", unm, 0>>
+  ELSE IF oor # "" THEN <<"fail", "return-bit-mapped-to-a-qubit-the-circuit-does-not-have", oor, 0>>
   ELSE IF undef # "" THEN <<"fail", "return-bit-not-defined", undef, 0>>
   ELSE
   LET fin == Run(c.gates, InitVal(nin, c.nq, U), U)
@@ -58,6 +60,8 @@ C03(c) ==
   IF ~WellFormed(c.gates, c.nq) THEN <<"fail", "gate-qubit-out-of-range-or-duplicate", -1, 0>>
   ELSE IF ~AllClassical(c.gates) THEN <<"skip", "non-classical-gate", -1, 0>>
   ELSE IF \E r \in {c.rets[j] : j \in 1..Len(c.rets)} : ~QHas(c.qmap, r) THEN <<"skip", "return-bit-not-mapped", -1, 0>>
+  ELSE IF \E r \in {c.rets[j] : j \in 1..Len(c.rets)} : QGet(c.qmap, r) < 0 \/ QGet(c.qmap, r) >= c.nq
+       THEN <<"fail", "return-bit-mapped-to-a-qubit-the-circuit-does-not-have", -1, 0>>
   ELSE
   LET fin  == Run(c.gates, InitVal(nin, c.nq, U), U)
       outq == {QGet(c.qmap, c.rets[j]) : j \in 1..Len(c.rets)}
@@ -80,6 +84,7 @@ C06(c) ==
   ELSE IF Unbound(c.exprs, c.inputs) # {} THEN <<"skip", "expr-free-symbol", -1, 0>>
   ELSE IF ~WellFormed(c.gates, c.nq) \/ ~AllClassical(c.gates) THEN <<"skip", "gates", -1, 0>>
   ELSE IF ~QHas(c.qmap, c.rets[1]) THEN <<"skip", "return-bit-not-mapped", -1, 0>>
+  ELSE IF QGet(c.qmap, c.rets[1]) < 0 \/ QGet(c.qmap, c.rets[1]) >= c.nq THEN <<"fail", "return-bit-mapped-to-a-qubit-the-circuit-does-not-have", -1, 0>>
   ELSE
   LET env == SemList(c.exprs, c.inputs, U)
       o   == QGet(c.qmap, c.rets[1])
